@@ -82,7 +82,7 @@ func checkC18(c *Ctx) {
 	r.Rule("C18/ATTR", "tag rewriter: every flow from a tokenizer attribute value to the output buffer passes html.EscapeString; when lower(key)==\"style\" the escaped value is the CSS filter's result")
 	r.Rule("C18/CSS", "CSS filter: Token.Value of an identifier is written only under allowedProperties[lower(value)] ok; the value-copying state is reachable only from that edge; TokenError returns \"\"")
 	r.Rule("C18/TEXT", "TextToHTML: the input is used only by html.EscapeString; inserted markup comes from constant format strings")
-	r.Rule("C18/UI", "webui message JSON: msg.HTML() flows only into sanitize.HTML, msg.Text() only into web.TextToHTML")
+	r.Rule("C18/UI", "webui message JSON: msg.HTML() flows only into sanitize.HTML, msg.Text() only into web.TextToHTML; the html/text fields served are those results themselves (or a constant), nothing computed from them afterwards")
 	c.c18Policy()
 	c.c18Order()
 	c.c18Total()
@@ -1651,6 +1651,81 @@ func (c *Ctx) c18UI() {
 	}
 	if nH == 0 || nT == 0 {
 		probs = append(probs, "the handler no longer reads both body variants")
+	}
+	// backwards: what is served in the html / text fields of the UI JSON is the sanitiser's (the
+	// text renderer's) result itself — a constant placeholder apart — not something computed
+	// from it afterwards (a rewrite after sanitising can re-introduce what was removed)
+	nServed := 0
+	for _, g := range fns {
+		g := g
+		eng.EachInstr(g, func(in ssa.Instruction) {
+			st, ok := in.(*ssa.Store)
+			if !ok {
+				return
+			}
+			fa, ok := st.Addr.(*ssa.FieldAddr)
+			if !ok {
+				return
+			}
+			f := eng.FieldOfAddr(fa)
+			if f == nil || f.Pkg() == nil || f.Pkg().Path() != eng.Mod+"/pkg/webui" || (f.Name() != "HTML" && f.Name() != "Text") {
+				return
+			}
+			want := sanHTML
+			if f.Name() == "Text" {
+				want = t2h
+			}
+			nServed++
+			seen := map[ssa.Value]bool{}
+			var leafBad func(v ssa.Value, depth int) string
+			leafBad = func(v ssa.Value, depth int) string {
+				if seen[v] || depth > 8 {
+					return ""
+				}
+				seen[v] = true
+				switch x := v.(type) {
+				case *ssa.Const:
+					return ""
+				case *ssa.Phi:
+					for _, e := range x.Edges {
+						if w := leafBad(e, depth+1); w != "" {
+							return w
+						}
+					}
+					return ""
+				case *ssa.Extract:
+					if call, ok := x.Tuple.(*ssa.Call); ok && eng.StaticCallee(call.Common()) == want && x.Index == 0 {
+						return ""
+					}
+				case *ssa.Call:
+					if eng.StaticCallee(x.Common()) == want {
+						return ""
+					}
+					return "the result of " + eng.CalleeName(x.Common()) + " at " + p.InstrPos(x)
+				case *ssa.UnOp:
+					if ad := eng.LoadAddr(v); ad != nil {
+						if cell := eng.CellOf(ad); cell != nil {
+							for _, cs := range eng.CellStores(cell) {
+								if w := leafBad(cs.Val, depth+1); w != "" {
+									return w
+								}
+							}
+							return ""
+						}
+					}
+				}
+				if in2, ok := v.(ssa.Instruction); ok {
+					return "a value computed at " + p.InstrPos(in2)
+				}
+				return "a value that is not the result of " + shortFn(want)
+			}
+			if w := leafBad(st.Val, 0); w != "" {
+				probs = append(probs, "the "+strings.ToLower(f.Name())+" field of the UI JSON is "+w+", not the result of "+shortFn(want)+" itself: whatever is done to the markup after sanitising is served unsanitised")
+			}
+		})
+	}
+	if nServed < 2 {
+		probs = append(probs, "the html/text fields of the UI JSON are no longer set in the handler")
 	}
 	sort.Strings(probs)
 	if len(probs) > 0 {
